@@ -29,14 +29,13 @@ from ..core import Ctx, MachineryError, chunks, load_known_findings, tla
 
 BASE = "http://base.tld/api"
 HEADER = b"# Sphinx inventory version 2\n# Project: p\n# Version: 1\n# The rest of this file is compressed with zlib.\n"
-FINDINGS = ["prio-last-column-indexerror", "name-token-taken-as-priority", "empty-token-shifts-columns",
-            "sphinx-reader-duplicate-name"]
+FINDINGS = ["prio-last-column-indexerror", "empty-token-shifts-columns"]
 
 
 # ------------------------------------------------------------------------------- tokens <-> classes
 def tok(cls: str, i: int) -> str:
-    return {"w": f"w{i}.x", "py": f"py:t{i}", "std": f"std:t{i}", "int": "-1" if i % 2 == 0 else str(i), "e": "",
-            "d": f"u{i}.html#$"}[cls]
+    return {"w": f"w{i}.x", "py": f"py:t{i}", "std": f"std:t{i}", "pyx": f"pyramid:t{i}",
+            "int": "-1" if i % 2 == 0 else str(i), "e": "", "d": f"u{i}.html#x-$"}[cls]
 
 
 def classify(token: str) -> str:
@@ -49,6 +48,8 @@ def classify(token: str) -> str:
         pass
     if token.startswith("py:"):
         return "py"
+    if token.startswith("py") and ":" in token:
+        return "pyx"
     if ":" in token:
         return "std"
     return "d" if token.endswith("$") else "w"
@@ -84,7 +85,7 @@ def real_effect(line: str) -> Tuple[str, Any, int]:
     log = Log()
     reader = sphinx.SphinxInventory(logger=log)
     try:
-        res = reader._parseInventory(BASE, line)
+        res = reader._parseInventory(BASE, line + "\n")
     except Exception as e:
         return "raise", reader, len(log.messages)
     reader._links.update(res)
@@ -140,7 +141,9 @@ def judge_row(ctx: Ctx, rec: Dict[str, Any], tokens: List[str], origin: str, sta
         nm, loc = txt(ref["name"]), tokens[ref["loc"] - 1]
         if reader.getLink(nm) != expected_url(nm, loc) and not (loc == "" and reader.getLink(nm) is None):
             bad.append("UsableResolves")
-    elif ref["kind"] == "nomatch" and effect not in ("error", "raise"):
+    if ref["kind"] == "ok" and classify(tokens[ref["typ"] - 1]) in ("std", "pyx") and effect == "link":
+        bad.append("NonPythonSkipped")
+    if not rec["usable"] and ref["kind"] == "nomatch" and effect not in ("error", "raise"):
         stats["lenient_rows"] += 1          # pydoctor accepts / silently ignores what Sphinx rejects: not a violation
     if bad:
         stats["violations"] += 1
@@ -192,6 +195,7 @@ def shape_source(dups: List[bool]) -> Tuple[str, str]:
 def build_system(sources: Dict[str, str], hidden: Optional[str] = None) -> Any:
     from pydoctor import model
     system = model.System()
+    system.options.verbosity = -3
     if hidden:
         system.options.privacy = [(model.PrivacyClass.HIDDEN, hidden)]
     builder = system.systemBuilder(system)
@@ -257,8 +261,17 @@ def judge_project(ctx: Ctx, system: Any, origin: str, model_rt: Dict[Tuple[bool,
     except Exception as e:                                  # Sphinx refusing the file is a finding about the writer
         sph = {}
         ctx.violation({"invariant": "SphinxLoads", "origin": origin, "observed": repr(e), "key": "sphinxloads"})
-    visible = [o for o in system.allobjects.values() if o.isVisible]
-    hidden = [o for o in system.allobjects.values() if not o.isVisible]
+    # the documented objects are those the page writer reaches: through `contents` from the roots (a superseded
+    # duplicate "X 0" stays in allobjects but has no page)
+    reach: List[Any] = []
+    todo = list(system.rootobjects)
+    while todo:
+        o = todo.pop()
+        reach.append(o)
+        todo.extend(o.contents.values())
+    visible = [o for o in reach if o.isVisible]
+    hidden = [o for o in reach if not o.isVisible]
+    stats["superseded_not_listed"] += sum(1 for o in system.allobjects.values() if o not in reach)
     if rexc:
         ctx.violation({"invariant": "NoCrash", "origin": origin, "observed": {"update_raised": rexc},
                        "input": "inventory written by SphinxInventoryWriter", "design_classes": [],
@@ -287,13 +300,13 @@ def judge_project(ctx: Ctx, system: Any, origin: str, model_rt: Dict[Tuple[bool,
             stats["violations"] += 1
             ctx.violation({"invariant": "RoundTrip", "origin": origin, "input": name, "reader": "pydoctor",
                            "observed": {"getLink": reader.getLink(name)}, "expected": want,
-                           "design_classes": ["name-token-taken-as-priority"] if explained else [], "drift": drift,
+                           "design_classes": [], "drift": drift,
                            "key": f"rt-own:{shape if explained else name}"})
         if not sph_ok:
             stats["violations"] += 1
             ctx.violation({"invariant": "RoundTripSphinx", "origin": origin, "input": name, "reader": "sphinx",
                            "observed": {"entry": sph.get(name)}, "expected": want,
-                           "design_classes": ["sphinx-reader-duplicate-name"] if explained else [], "drift": drift,
+                           "design_classes": [], "drift": drift,
                            "key": f"rt-sphinx:{shape if explained else name}"})
     return lines
 
@@ -305,7 +318,7 @@ LINE_TEXT = {"py": "pkg.mod{i} py:module -1 pkg.mod{i}.html -",
              "priolast": "a{i} py:x 1",
              "nodisplay": "b{i} py:class 1 loc",
              "blank": "",
-             "dupdup": "m{i}.C 0.D 0 py:class -1 m{i}.C%200.D%200.html -"}
+             "pyx": "some.view{i} pyramid:view 1 views.html#v{i} -"}
 
 
 class RaisingSession:
@@ -358,7 +371,11 @@ def run_update(cfg: Dict[str, Any]) -> Dict[str, Any]:
         raised = type(e).__name__
     links = []
     for i, ln in enumerate(lines, 1):
-        name = ln.split(" py:")[0] if " py:" in ln else None
+        name = None
+        for sep in (" py:", " pyramid:", " std:"):
+            if sep in ln:
+                name = ln.split(sep)[0]
+                break
         if name and reader.getLink(name) is not None:
             links.append(i)
     return {"raised": raised, "errors": len(log.messages), "links": links, "messages": [m[1] for m in log.messages][:4]}
@@ -373,14 +390,14 @@ def inv_cfg(mode: str, classes: List[str], maxcols: int, maxdepth: int, open_ids
 
 def finding_status() -> Tuple[List[str], List[str]]:
     """(open, fixed): an id is fixed when known_findings.json says so or when its canonical witness no longer
-    reproduces on the tree under test (then Inventory.tla follows the repaired code: FixIndex / FixType)."""
+    reproduces on the tree under test (then Inventory.tla follows the repaired code: FixIndex / FixEmpty)."""
     fs = load_known_findings("C17")
     fixed = {f["id"] for f in fs if f.get("status") == "fixed"}
     if real_parse("a py:x 1")["kind"] != "Crash":
         fixed.add("prio-last-column-indexerror")
-    r = real_parse("m.C 0.D 0 py:class -1 m.C%200.D%200.html -")
-    if r["kind"] == "ok" and r["name"] == "m.C 0.D 0":
-        fixed.add("name-token-taken-as-priority")
+    r = real_parse("a  py:x 1 loc d")
+    if r["kind"] == "ok" and r["name"] == "a":
+        fixed.add("empty-token-shifts-columns")
     return [f["id"] for f in fs if f.get("status") == "open" and f["id"] not in fixed], sorted(fixed)
 
 
@@ -389,20 +406,23 @@ def run(ctx: Ctx) -> int:
     open_ids, fixed_ids = finding_status()
     for fid in FINDINGS:
         ctx.register_matcher(fid, kf_matcher(fid, open_ids))
-    stats = {k: 0 for k in ("rows", "usable_rows", "lenient_rows", "objects", "updates", "drift", "violations", "file_rows")}
+    stats = {k: 0 for k in ("rows", "usable_rows", "lenient_rows", "objects", "updates", "drift", "violations", "file_rows",
+                            "superseded_not_listed", "byte_strings")}
     design: List[str] = []
 
     def tlc(mode: str, classes: List[str], maxcols: int = 0, maxdepth: int = 0, env: Optional[Dict[str, str]] = None,
             coverage: bool = False) -> Any:
         r = ctx.tlc("Inventory", inv_cfg(mode, classes, maxcols, maxdepth, open_ids, fixed_ids), workers="auto", env=env,
                     extra=["-continue"], timeout=1500, coverage=coverage)
-        if r.errors or (r.rc != 0 and not r.violated):
-            raise MachineryError(f"TLC failed on Inventory ({mode}): {r.errors[:3]}\n" + "\n".join(r.out.splitlines()[-25:]))
+        # with -continue TLC prints the trace of every design-level violation: not an error of the run
+        errs = [e for e in r.errors if "The behavior up to this point is" not in e]
+        if errs or (r.rc != 0 and not r.violated):
+            raise MachineryError(f"TLC failed on Inventory ({mode}): {errs[:3]}\n" + "\n".join(r.out.splitlines()[-25:]))
         design.extend(sorted({f"{mode}:{v}" for v in r.violated}))
         return r
 
     # ---- rows: the line grammar
-    classes = ["w", "py", "int", "e", "d"] if ctx.quick else ["w", "py", "std", "int", "e", "d"]
+    classes = ["w", "py", "pyx", "int", "e", "d"] if ctx.quick else ["w", "py", "pyx", "std", "int", "e", "d"]
     r = tlc("rows", classes, maxcols=6)
     if len(r.printed) != r.distinct:
         raise MachineryError(f"Inventory(rows): {r.distinct} rows but {len(r.printed)} records")
@@ -430,6 +450,7 @@ def run(ctx: Ctx) -> int:
                                                          "relativeimporttest", "reparented_module", "cyclic_imports"]):
         if (tp / pkg).exists():
             system = model.System()
+            system.options.verbosity = -3
             system.addPackage(tp / pkg)
             system.process()
             all_lines += judge_project(ctx, system, f"pkg:{pkg}", model_rt, stats, open_ids)
@@ -439,9 +460,9 @@ def run(ctx: Ctx) -> int:
     mutated: List[str] = []
     for ln in pool:
         parts = ln.split(" ")
-        for _ in range(2 if ctx.quick else 8):
+        for _ in range(6 if ctx.quick else 20):
             p = list(parts)
-            op = rng.choice(["drop", "dup", "empty", "swap", "int"])
+            op = rng.choice(["drop", "dup", "empty", "swap", "int", "domain"])
             k = rng.randrange(len(p))
             if op == "drop":
                 del p[k]
@@ -451,6 +472,8 @@ def run(ctx: Ctx) -> int:
                 p.insert(k, "")
             elif op == "swap" and len(p) > 1:
                 j = rng.randrange(len(p)); p[k], p[j] = p[j], p[k]
+            elif op == "domain":
+                p = [t.replace("py:", rng.choice(["pyramid:", "std:", "c:"])) for t in p]
             else:
                 p[k] = str(rng.choice([0, 1, -1, 7]))
             if p and len(p) <= 10:
@@ -460,7 +483,7 @@ def run(ctx: Ctx) -> int:
         rows = sorted({tuple(classify(t) for t in ln.split(" ")) for ln in batch})
         f = ctx.scratch / "rows.json"
         f.write_text(json.dumps([list(x) for x in rows]))
-        r = tlc("file", ["w", "py", "std", "int", "e", "d"], env={"ROWS_FILE": str(f)})
+        r = tlc("file", ["w", "py", "pyx", "std", "int", "e", "d"], env={"ROWS_FILE": str(f)})
         pred = {tuple(seq(rec["row"])): rec for rec in r.printed}
         for ln in batch:
             toks = ln.split(" ")
@@ -471,7 +494,7 @@ def run(ctx: Ctx) -> int:
             judge_row(ctx, rec, toks, "written+mutated", stats)
 
     # ---- update: the staged fault model
-    r = tlc("update", classes, coverage=ctx.quick)
+    r = tlc("update", classes, coverage=not ctx.quick)
     if r.coverage:
         ctx.extra["action_coverage"] = {a: c for a, c in r.coverage.items() if a in
                                         ("Rsplit", "Fetch", "Payload", "Inflate", "Decode", "Lines")}
@@ -514,6 +537,52 @@ def run(ctx: Ctx) -> int:
                            "key": f"upd:{bad}:{classes_}:{json.dumps(cfg) if not classes_ or not same else ''}"})
         if nupd % 1100 == 1:
             ctx.sample({"cfg": cfg, "observed": obs})
+
+    # ---- for all byte strings: corrupted copies of a really written inventory (adjunct to the staged model: the
+    #      only claims are "never raises" and "something is reported or something resolves")
+    good, _ = write_inventory(ctx, build_system({"m": shape_source([False, True, True])[0], "n": "def f(): 'd'\nx = 1\n'doc'\n"}))
+    nfuzz = 400 if ctx.quick else 6000
+    for _ in range(nfuzz):
+        b = bytearray(good)
+        for _ in range(rng.choice([1, 1, 2, 5])):
+            op = rng.choice(["flip", "cut", "ins", "del", "reinflate"])
+            if op == "flip" and b:
+                b[rng.randrange(len(b))] = rng.randrange(256)
+            elif op == "cut":
+                b = b[: rng.randrange(len(b) + 1)]
+            elif op == "ins":
+                b[rng.randrange(len(b) + 1):0] = bytes(rng.randrange(256) for _ in range(rng.choice([1, 3, 10])))
+            elif op == "del" and len(b) > 2:
+                i = rng.randrange(len(b) - 1); del b[i:i + rng.choice([1, 2, 8])]
+            else:                                         # valid container, corrupted text
+                t = bytearray(zlib.decompress(good[len(HEADER):]))
+                for _ in range(rng.choice([1, 2, 4])):
+                    if t:
+                        t[rng.randrange(len(t))] = rng.choice(b" \n1-:$\xff\x00a")
+                b = bytearray(HEADER + zlib.compress(bytes(t)))
+        reader, rlog, rexc = read_back(bytes(b))
+        ctx.traces += 1
+        stats["byte_strings"] += 1
+        if rexc is not None:
+            try:
+                lines = inventory_lines(bytes(b))
+            except Exception:
+                lines = []
+            crash_lines = [ln for ln in lines if real_parse(ln)["kind"] == "Crash"]
+            stats["violations"] += 1
+            ctx.violation({"invariant": "NeverRaises", "origin": "bytes", "input": bytes(b).hex(),
+                           "observed": {"raised": rexc, "line": crash_lines[:1]},
+                           "design_classes": ["prio-last-column-indexerror"] if crash_lines and rexc == "IndexError" else [],
+                           "drift": False, "key": f"bytes:{rexc}:{bool(crash_lines)}"})
+        elif not rlog.messages and not reader._links:
+            try:
+                empty_ok = not any(" py:" in ln for ln in inventory_lines(bytes(b)))
+            except Exception:
+                empty_ok = False
+            if not empty_ok:
+                ctx.violation({"invariant": "ReportsOnce", "origin": "bytes", "input": bytes(b).hex(),
+                               "observed": "nothing reported, nothing resolves", "design_classes": [], "drift": False,
+                               "key": "bytes:silent"})
 
     # ---- negative control: a corrupted observation must be told apart by the comparison with the model
     rec0 = next(rec for rec in r.printed if rec["pc"] == "done" and seq(rec["links"]))
@@ -562,11 +631,15 @@ def replay(ctx: Ctx, path: str) -> int:
             nm = " ".join(toks[p - 1] for p in seq(ref["name"]))
             bad = reader.getLink(nm) != expected_url(nm, toks[ref["loc"] - 1])
         print(f"replay: line {line!r} -> {real} / {effect}:", "still violated" if bad else "holds now")
+    elif w.get("origin") == "bytes":
+        reader, rlog, rexc = read_back(bytes.fromhex(w["input"]))
+        bad = rexc is not None if w["invariant"] == "NeverRaises" else (not rlog.messages and not reader._links)
+        print("replay: update on recorded bytes ->", rexc or "returned", "still violated" if bad else "holds now")
     elif w.get("invariant") in ("RoundTrip", "RoundTripSphinx"):
         shape = dup_shape(w["input"])
         src, full = shape_source(shape)
         system = build_system({"m": src})
-        st = {k: 0 for k in ("objects", "drift", "violations")}
+        st = {k: 0 for k in ("objects", "drift", "violations", "superseded_not_listed")}
         before = len(ctx.violations)
         judge_project(ctx, system, "replay", {}, st, [])
         mine = [v for v in ctx.violations[before:] if v.get("invariant") == w["invariant"]]
